@@ -1,6 +1,7 @@
 """C03 - reading never fails with anything but a YAML error (exception-class, guard and loop-termination clauses)."""
 import sys
 
+from sa import rules_r6b as R6B
 from sa import report, partial as P, rules_read as RD, rules_marks as RM
 from sa import rules_lang as RLNG
 from sa import rules_reader as RRDR
@@ -42,6 +43,9 @@ def run(ctx, repo):
     ctx.call(RLNG.r_regex_linear, repo)
 
     ctx.call(RX.r_plain_start_consumed, repo)
+    ctx.call(R6B.r_assert_inventory, repo, ('reader', 'scanner', 'parser', 'composer'))
+    ctx.call(R6B.r_finally_bound, repo)
+    ctx.call(R6B.r_uri_escapes_joined, repo)
 
 
 if __name__ == '__main__':
